@@ -3,11 +3,12 @@
    (every prefix of an input is an input).  The menus are constants so that configurations select sub-spaces. *)
 EXTENDS O2OValidate, Json
 CONSTANTS MaxTraits, MaxTAttrs, MaxMembers, MaxMAttrs, DTs, Shapes, TNames, Hints, TMenu, MMenu, TCps, MCps,
+          FixedTraits, \* non-empty: the trait instructions are given (C06: one bundle per counterpart), AddTrait is disabled
           SpellAll     \* C13: every instruction in both spellings (bare / #[o2o(..)]), and adjacent own ones grouped or not
 VARIABLE in
 Owns == IF SpellAll THEN BOOLEAN ELSE {FALSE}
-Init == \E dt \in DTs, sh \in Shapes, g \in Owns : (dt = "enum" => sh = "named") /\ in = [dt |-> dt, shape |-> sh, traits |-> <<>>, tattrs |-> <<>>, ms |-> <<>>, grouped |-> g]
-AddTrait(n, cp, e, h, own) == /\ Len(in.traits) < MaxTraits /\ in.tattrs = <<>> /\ in.ms = <<>>
+Init == \E dt \in DTs, sh \in Shapes, g \in Owns : (dt = "enum" => sh = "named") /\ in = [dt |-> dt, shape |-> sh, traits |-> (IF dt = "enum" THEN SelectSeq(FixedTraits, LAMBDA t : Appl(t.n) \cap {"OIE", "RIE"} = {}) ELSE FixedTraits), tattrs |-> <<>>, ms |-> <<>>, grouped |-> g]
+AddTrait(n, cp, e, h, own) == /\ FixedTraits = <<>> /\ Len(in.traits) < MaxTraits /\ in.tattrs = <<>> /\ in.ms = <<>>
                          /\ (h = "struct" => in.dt = "struct" /\ in.shape = "tuple")
                          /\ in' = [in EXCEPT !.traits = Append(@, [n |-> n, cp |-> cp, err |-> e, hint |-> h, own |-> own])]
 AddTAttr(n, cp, own) == /\ Len(in.tattrs) < MaxTAttrs /\ in.ms = <<>>
@@ -29,4 +30,14 @@ Spec == Init /\ [][Next]_in
 Emit == in.ms # <<>> => PrintT(<<"CASE", ToJson(in)>>)
 \* design-level: removing the last member instruction of a faulty input never adds a fault of another member / the type
 Monotone == TRUE
+\* C06: ProjectTo -- every instruction that concerns another counterpart removed
+ProjectTo(i, cp) == [i EXCEPT !.traits = SelectSeq(@, LAMBDA t : t.cp = cp),
+                              !.tattrs = SelectSeq(@, LAMBDA x : x.cp \in {"-", cp}),
+                              !.ms = [j \in DOMAIN @ |-> SelectSeq(@[j], LAMBDA x : x.cp \in {"-", cp})]]
+EmitProj == in.ms # <<>> => PrintT(<<"CASE", ToJson([in |-> in, pa |-> ProjectTo(in, "A"), pb |-> ProjectTo(in, "B"), faults |-> FaultKeys(in)])>>)
+\* design-level: the projection of a valid input is valid, and projecting never introduces a fault that concerns the kept counterpart only
+ProjectionKeepsValidity == Faults(in) = {} => Faults(ProjectTo(in, "A")) = {} /\ Faults(ProjectTo(in, "B")) = {}
+\* C06: the bundle that defines all conversions for two counterparts
+BundleAB == << [n |-> "map", cp |-> "A", err |-> "-", hint |-> "-", own |-> FALSE], [n |-> "into_existing", cp |-> "A", err |-> "-", hint |-> "-", own |-> FALSE],
+               [n |-> "map", cp |-> "B", err |-> "-", hint |-> "-", own |-> FALSE], [n |-> "try_into", cp |-> "B", err |-> "E1", hint |-> "-", own |-> FALSE] >>
 =============================================================================
